@@ -88,6 +88,9 @@ func init() {
 				{Scenario: "c09_regets", Params: mustJSON(struct{}{}), Bound: 0, Shards: 2, Note: "one discovery object asked three times while the numbering changes (dynamic membership through the bus)"},
 				{Scenario: "c09_getrace", Params: mustJSON(struct{}{}), Bound: 0, Shards: 2, Note: "a renumbering announced at every scheduling point of a running Get(): the result is the chunk of the old or of the new numbering"},
 				{Scenario: "c10_sd", Params: mustJSON(struct{}{}), Bound: 0, Shards: 4, Note: "leader-assigned numbering: at every instant members that agree on the group size hold distinct numbers (also after a failed Rebalance RPC in steady state)"},
+				{Scenario: "c02_sessions", Params: mustJSON(SessionsParams{Backend: "file"}), Bound: 0, Shards: 2, Note: "what a member STREAMS is its chunk - through three sessions of one process with the file backend (whose Load returns every vBucket of the file): no stream outside the set"},
+				{Scenario: "c02_sessions", Params: mustJSON(SessionsParams{Backend: "append"}), Bound: 0, Shards: 2, Note: "the same with a custom backend that appends to the id list it is handed: the sets of later sessions are unaffected"},
+				{Scenario: "c02_sessions", Params: mustJSON(SessionsParams{}), Bound: 0, Shards: 2},
 				{Scenario: "c10_register", Params: mustJSON(struct{}{}), Bound: 0, Note: "leader-assigned numbering over the real RPC / election code: after every disturbance (death, restart, network blip, fail-over with either callback order, late listener, failed dial-back) the numbers the instances hold are distinct and agree on the size - the precondition of the partition"},
 				{Scenario: "c10_lease", Params: mustJSON(struct{}{}), Bound: 0, Note: "the same driven from the lease (leader restart in its pod, fail-over)"},
 				{Scenario: "c10_first", Params: mustJSON(FirstParams{BackToBack: true}), Bound: 2, Note: "two numberings announced back to back: every schedule of the delivery threads leaves the member with the partition of the latest"},
